@@ -404,6 +404,93 @@ func c03Units(ctx *core.Ctx) []core.Unit {
 		st = core.Explore(r, core.SchedSpec{Name: "CreateIPAProof(prf0, point 300) NumCPU=2", API: "ipa.CreateIPAProof", Check: "c03.schedule", Body: body2, Expect: hx(rp.Bytes()), Mode: "dpor", Opt: explore.Options{DataBudget: 0, MaxExecs: 100000, Deadline: schedDeadline(ctx)}})
 		r.Nontrivial += int64(st.Complete)
 	}})
+	// (c') two provers at once, different statements: the reduction-free preemption-bounded search switches
+	// between the two calls at every scheduling point, so memory that the two calls share without
+	// synchronisation (invisible to DPOR, which only reorders dependent synchronisation operations) shows up
+	// as proof bytes that depend on the schedule.
+	us = append(us, core.Unit{Name: "schedules: two provers at once (different statements), every switch point, preemption bound 1/2", Run: func(ctx *core.Ctx, r *core.Result) {
+		if !vsched.Instrumented {
+			r.Note("seam", "unavailable (fallback flavour)")
+			return
+		}
+		needRef()
+		c := conf()
+		defer vsched.SetNumCPU(0)
+		vsched.SetNumCPU(2)
+		vsched.FamilyAffinity = true
+		defer func() { vsched.FamilyAffinity = false }()
+		polys := polyAlphabet(ctx.Seed)
+		s3 := stmt{label: "vt", zs: []int{5, 200, 5}, polys: []namedPoly{polys[10], polys[12], polys[13]}}
+		s3b := stmt{label: "third", zs: []int{1, 2, 3}, polys: []namedPoly{polys[12], polys[13], polys[11]}}
+		s4 := stmt{label: "other", zs: []int{7, 7, 100, 255}, polys: []namedPoly{polys[13], polys[11], polys[12], polys[10]}}
+		// the call that starts first has the larger statement (a buffer kept between calls and grown on demand
+		// is then shared); thorough adds equal sizes and the opposite order
+		pairs := [][]stmt{{s4, s3}}
+		if ctx.Thorough() {
+			pairs = append(pairs, []stmt{s3, s3b}, []stmt{s3, s4})
+		}
+		bd := 1
+		if ctx.Thorough() {
+			bd = 2
+		}
+		for _, ss := range pairs {
+			want := ""
+			for k, s := range ss {
+				rc, rfs, _ := s.refObjs()
+				wb, _ := ref.MultiProveBytes(s.label, ref.SRS(), rc, rfs, s.zs)
+				want += fmt.Sprintf("[%d]%s", k, hx(wb))
+			}
+			body := func() string {
+				outs := make([]string, len(ss))
+				var wg vsched.WaitGroup
+				for k := range ss {
+					wg.Add(1)
+					vsched.Go2(func(k, _ int) {
+						defer wg.Done()
+						b, _, err := implProofBytes(c, ss[k])
+						if err != nil {
+							outs[k] = "error " + err.Error()
+							return
+						}
+						outs[k] = hx(b)
+					}, k, 0)
+				}
+				wg.Wait()
+				o := ""
+				for k := range outs {
+					o += fmt.Sprintf("[%d]%s", k, outs[k])
+				}
+				return o
+			}
+			st := core.Explore(r, core.SchedSpec{Name: fmt.Sprintf("CreateMultiProof(%d openings) || CreateMultiProof(%d openings), NumCPU=2", len(ss[0].zs), len(ss[1].zs)), API: "CreateMultiProof", Check: "c03.schedule", Body: body, Expect: want, Mode: "bounded", Opt: explore.Options{MaxBound: bd, SchedOnly: true, Allow: callerSwitch, MaxExecs: 100000, Deadline: schedDeadline(ctx)}})
+			r.Nontrivial += int64(st.Complete)
+		}
+		// the same for the single-polynomial prover
+		a1, a2 := frsFromBig(polys[12].V), frsFromBig(polys[13].V)
+		cm1, cm2 := c.Commit(a1), c.Commit(a2)
+		rp1 := ref.IPAProve(ref.NewTranscript("ipa"), ref.SRS(), refCommitCached(ref.SRS(), polys[12]), polys[12].V, bi(300))
+		rp2 := ref.IPAProve(ref.NewTranscript("ipb"), ref.SRS(), refCommitCached(ref.SRS(), polys[13]), polys[13].V, bi(17))
+		want2 := "[0]" + hx(rp1.Bytes()) + "[1]" + hx(rp2.Bytes())
+		body2 := func() string {
+			outs := make([]string, 2)
+			var wg vsched.WaitGroup
+			wg.Add(2)
+			vsched.Go2(func(_, _ int) {
+				defer wg.Done()
+				pr, err := ipa.CreateIPAProof(common.NewTranscript("ipa"), c, cm1, append([]fr.Element(nil), a1...), frFromBig(bi(300)))
+				outs[0] = hx(ipaProofBytes(&pr)) + errS(err)
+			}, 0, 0)
+			vsched.Go2(func(_, _ int) {
+				defer wg.Done()
+				pr, err := ipa.CreateIPAProof(common.NewTranscript("ipb"), c, cm2, append([]fr.Element(nil), a2...), frFromBig(bi(17)))
+				outs[1] = hx(ipaProofBytes(&pr)) + errS(err)
+			}, 0, 0)
+			wg.Wait()
+			return "[0]" + outs[0] + "[1]" + outs[1]
+		}
+		st := core.Explore(r, core.SchedSpec{Name: "CreateIPAProof(point 300) || CreateIPAProof(point 17), NumCPU=2", API: "ipa.CreateIPAProof", Check: "c03.schedule", Body: body2, Expect: want2, Mode: "bounded", Opt: explore.Options{MaxBound: bd, SchedOnly: true, Allow: callerSwitch, MaxExecs: 100000, Deadline: schedDeadline(ctx)}})
+		r.Nontrivial += int64(st.Complete)
+	}})
 	// (d) pool answers
 	us = append(us, core.Unit{Name: "pool answers inside transcript challenges and IPA proving", Run: func(ctx *core.Ctx, r *core.Result) {
 		if !vsched.Instrumented {
@@ -487,4 +574,21 @@ func allowedCPUs() []int {
 		}
 	}
 	return ids
+}
+
+func errS(err error) string {
+	if err != nil {
+		return " error " + err.Error()
+	}
+	return ""
+}
+
+// callerSwitch restricts the deviations of a bounded search over concurrent API calls to "run the other
+// top-level caller now" (goroutine ids "0.k"): at every scheduling point — whether the goroutine that would
+// continue is a caller or one of its internal workers — the alternative of handing the processor to another
+// caller is explored; the internal workers of one call keep their default order among themselves (their
+// interleavings within one call are the subject of the DPOR units). Seeds are generated in program order,
+// so a time cap cuts the late switch points, never the early ones.
+func callerSwitch(enabled []string, alt int) bool {
+	return strings.Count(enabled[alt], ".") == 1
 }
